@@ -4,13 +4,19 @@ EXTENDS ConcSuite
 
 CONSTANTS Scripts, FaultChoices(_)
 
-S(tests, raises) == [tests |-> tests, raises |-> raises]
+S(tests, raises) == [tests |-> tests, raises |-> raises, tfault |-> 0]
+SF(tests, raises, tf) == [tests |-> tests, raises |-> raises, tfault |-> tf]
+tm == "timed"
 ok == "addSuccess"
 er == "addError"
 
 \* quick: 2 workers x <= 2 tests, run() may raise; one fault (make_tests raising after k, or an interrupt)
 ScriptQ == {S(<<ok>>, "base"), S(<<>>, "no"), S(<<ok, er>>, "no"), S(<<>>, "exc")}
 ScriptsQ == [1..2 -> ScriptQ]
+\* overlapping timed tests (each worker's block must carry its own times and tag), the caller's result raising at
+\* startTest of a test
+ScriptsTm == [1..2 -> {S(<<tm>>, "no"), S(<<tm, ok>>, "exc"), SF(<<tm, ok>>, "no", 1), SF(<<ok, tm>>, "no", 1)}]
+FaultsTm(s) == {<<NoFault, NoFault>>, <<NoFault, 1>>}
 \* thorough: 3 workers, 1 worker with 3 tests, 4 small workers
 ScriptT == {S(<<>>, "no"), S(<<ok>>, "no"), S(<<>>, "exc")}
 Scripts3 == [1..3 -> ScriptT]
@@ -22,7 +28,7 @@ Scripts13 == [1..1 -> {S(<<ok, er, ok>>, "no"), S(<<ok, er, ok>>, "exc")}] \cup 
 ScriptsXq == { <<S(<<ok>>, "exc")>>, <<S(<<>>, "no"), S(<<>>, "no")>> }
 ScriptsX == { <<S(<<ok>>, "no")>>, <<S(<<>>, "no"), S(<<>>, "no")>> }
 \* deep random behaviours
-ScriptsS == [1..3 -> ScriptQ] \cup [1..4 -> ScriptT]
+ScriptsS == [1..3 -> ScriptQ \cup {S(<<tm>>, "no"), SF(<<ok>>, "no", 1)}] \cup [1..4 -> ScriptT]
 
 NoFaults(s) == {<<NoFault, NoFault>>}
 OneFault(s) == {<<NoFault, NoFault>>} \cup {<<k, NoFault>> : k \in 0..Len(s)} \cup {<<NoFault, j>> : j \in 0..Len(s)}
